@@ -41,6 +41,7 @@ def check(repo: Repo, R) -> None:
     copy_aliasing(repo, R, "C01.12-copy-shares-backrefs")
     noconn_array(repo, R)
     ref_resolution(repo, R)
+    secondary(repo, R, noret)
     R.floor("C01.1-portref-source-kinds", 1)
     R.floor("C01.2-bit-order", 5)
     R.floor("C01.3-array-partition", 3)
@@ -965,3 +966,94 @@ def ref_resolution(repo: Repo, R):
     R.check(bool(fwd) and rec_f and rec_b and addsrc, rule, key_of(ff), ff.site,
             f"follow: reads the port's own connection: {bool(fwd)}; recurses into it when it is a reference: {rec_f}; adds non-reference connections to the group: {addsrc}; recurses over every port connected to the reference: {rec_b}",
             why="a chain or fan of port references is split into several groups, each getting its own signal")
+
+
+# --------------------------------------------------------------------------
+# 15. secondary mechanisms of the same passes (added after the first build)
+# --------------------------------------------------------------------------
+
+
+def secondary(repo: Repo, R, noret):
+    rule = "C01.15-pass-plumbing"
+    # (a) ResolvePortRefs looks at every instance-like kind, and at every NoConn connection
+    fe = repo.func(F_PORTREFS, "ResolvePortRefs.elaborate_module")
+    defs = au.local_defs(fe.node)
+    il = defs.get("instancelike")
+    kinds = {k for k in ("instances", "instarrays", "instbundles") if il is not None and f"module.{k}.values()" in ast.unparse(il)}
+    loop = [n for n in au.walk_no_nested(fe.node) if isinstance(n, ast.For) and ast.unparse(n.iter) == "instancelike"]
+    pr = bool(loop) and bool(pat.find("module_portrefs.add($P)", loop[0])) and any(isinstance(n, ast.For) and ast.unparse(n.iter) == "inst._refs.portrefs.values()" for n in ast.walk(loop[0]))
+    nc = bool(loop) and any(isinstance(n, ast.If) and ast.unparse(n.test) == "isinstance(conn, NoConn)" and bool(pat.find("module_portrefs.add(_get_connref(inst, portname))", n)) for n in ast.walk(loop[0]))
+    R.check(kinds == {"instances", "instarrays", "instbundles"} and pr and nc, rule, key_of(fe, "collect"), fe.site,
+            f"port references are collected from {sorted(kinds)} (needs instances, arrays and instance bundles): every handed-out reference ({pr}) and every NoConn connection ({nc})",
+            why="port references / no-connects on arrays or instance bundles are never resolved and reach the exporter")
+    grp = any(isinstance(n, ast.While) and ast.unparse(n.test) == "module_portrefs" for n in au.walk_no_nested(fe.node)) and bool(pat.find("follow(module_portrefs.pop(), group)", fe.node))
+    hg = any(isinstance(n, ast.For) and ast.unparse(n.iter) == "groups" and bool(pat.find("self.handle_group(module, group)", n)) for n in au.walk_no_nested(fe.node))
+    R.check(grp and hg, rule, key_of(fe, "groups"), fe.site, f"groups are formed until no reference is left ({grp}) and every group is handled ({hg})", why="some reference groups are never replaced by a signal")
+    fh = repo.func(F_PORTREFS, "ResolvePortRefs.handle_group")
+    ok = any(isinstance(n, ast.If) and ast.unparse(n.test) == "any([isinstance(n, NoConn) for n in group])" and bool(pat.find("self.handle_noconn(module, group)", n)) for n in au.walk_no_nested(fh.node)) and bool(pat.find("self.handle_portconn(module, group)", fh.node))
+    R.check(ok, rule, key_of(fh), fh.site, f"a group containing a NoConn is handled as a no-connect, any other as a connection group: {ok}", why="a no-connected port is given a shared net (or vice versa)")
+    fhp = repo.func(F_PORTREFS, "ResolvePortRefs.handle_portconn")
+    ok = bool(pat.find("source = self.find_source(group)", fhp.node)) and any(isinstance(n, ast.If) and ast.unparse(n.test) == "source is None" and bool(pat.find("source = self.create_source(module, group_port_refs)", n)) for n in au.walk_no_nested(fhp.node))
+    R.check(ok, rule, key_of(fhp), fhp.site, f"an existing source is reused; a new one is created only when the group has none: {ok}", why="a group with an explicit signal gets a second, fresh net: the designer's signal is cut off")
+    fcs = repo.func(F_PORTREFS, "ResolvePortRefs.create_source")
+    ok = bool(pat.find("ios = io_for_resolving(portref.inst.of)", fcs.node)) and bool(pat.find("port = ios.get(portref.portname, None)", fcs.node)) and bool(pat.find("sig = self.copy_port(port)", fcs.node)) and bool(pat.find("portref = self.which_portref_to_name(group)", fcs.node))
+    R.check(ok, rule, key_of(fcs), fcs.site, f"the implicit net copies the referenced port of the naming instance's target (its width / bundle type): {ok}", why="the implicit net has another port's width")
+    fwn = repo.func(F_PORTREFS, "ResolvePortRefs.which_portref_to_name")
+    ok = bool(pat.find("sorted(group, key=lambda p: p.inst.name)", fwn.node)) and any(isinstance(n, ast.If) and ast.unparse(n.test) == "len(connected_to_none) > 1" and au.raises(n.body, noret) for n in au.walk_no_nested(fwn.node))
+    R.check(ok, rule, key_of(fwn), fwn.site, f"naming is deterministic (the unconnected port, else the alphabetically first instance); several unconnected ports fail: {ok}", why="net names depend on iteration order")
+    # (b) follow() distinguishes references from sources
+    ff = repo.find_func(F_PORTREFS, "ResolvePortRefs.elaborate_module.<locals>.follow")
+    ok = ff is not None and any(isinstance(n, ast.If) and ast.unparse(n.test) == "isinstance(conn, PortRef)" and bool(pat.find("follow(conn, group)", ast.Module(n.body, []))) and bool(pat.find("group.add(conn)", ast.Module(n.orelse, []))) for n in au.walk_no_nested(ff.node))
+    R.check(ok, rule, key_of(ff, "ref-vs-source") if ff else "follow", ff.site if ff else fe.site, f"a port's connection is followed when it is a reference and recorded as (candidate) source otherwise: {ok}", why="a reference is taken for a source (or a signal is followed as if it were a reference)")
+    # (c) BundleRef path / root
+    bp = repo.func(F_BUNDLE, "BundleRef.path")
+    ok = bool(pat.find("self.parent.path() + [self.attrname]", bp.node)) and any(isinstance(n, ast.If) and ast.unparse(n.test) == "isinstance(self.parent, BundleInstance)" and ast.unparse(n.body[-1]) == "return [self.attrname]" for n in au.walk_no_nested(bp.node))
+    R.check(ok, rule, key_of(bp), bp.site, f"a nested bundle reference's path lists the outer member first: {ok}", why="b.sub.x resolves member `sub` of `x` (path reversed): wrong signal or failure")
+    br = repo.func(F_BUNDLE, "BundleRef.root")
+    ok = bool(pat.find("self.parent.root()", br.node)) and any(isinstance(n, ast.If) and ast.unparse(n.test) == "isinstance(self.parent, BundleInstance)" and ast.unparse(n.body[-1]) == "return self.parent" for n in au.walk_no_nested(br.node))
+    R.check(ok, rule, key_of(br), br.site, f"a reference's root is the outermost bundle instance: {ok}", why="references resolve against another bundle instance")
+    fb = repo.func(F_BUNDLE, "_bundle_ref")
+    ok = any(isinstance(n, ast.If) and ast.unparse(n.test) == "key in bundle_refs" and ast.unparse(n.body[-1]) == "return bundle_refs[key]" for n in au.walk_no_nested(fb.node)) and bool(pat.find("BundleRef(parent=self, attrname=key)", fb.node)) and bool(pat.find("bundle_refs[key] = bundle_ref", fb.node))
+    R.check(ok, rule, key_of(fb), fb.site, f"one BundleRef per (parent, member): reused when present, recorded when new: {ok}", why="two reference objects for one member: connections made through one are not resolved with the other")
+    # (d) resolve_bundleref: root scope from the cache, path resolved in it, result recorded
+    frb = repo.func(F_FLATB, "BundleFlattener.resolve_bundleref")
+    ok = bool(pat.find("path: List[str] = bref.path()", frb.node) or pat.find("path = bref.path()", frb.node)) and bool(pat.find("flat_root = THE_CACHE.bundle_insts.get(id(root), None)", frb.node)) and bool(pat.find("bref.resolved = resolved = self.resolve_path(flat_root, Path(path))", frb.node))
+    sig = any(isinstance(n, ast.If) and ast.unparse(n.test) == "isinstance(resolved, Signal)" and bool(pat.find("update_ref_deps(bref, resolved)", n)) for n in au.walk_no_nested(frb.node))
+    R.check(ok and sig, rule, key_of(frb), frb.site, f"a bundle reference resolves its own path in the flattened scope of its own root ({ok}); a signal-valued result updates every dependant ({sig})", why="b.x resolves to another bundle's or another member's signal")
+    frbs = repo.func(F_FLATB, "BundleFlattener.resolve_bundlerefs")
+    calls = [ast.unparse(c) for c in au.calls_in(frbs.node) if isinstance(c.func, ast.Attribute) and c.func.attr.startswith("resolve_bundleref")]
+    R.check(calls == ["self.resolve_bundlerefs(bref)", "self.resolve_bundleref(bref)"], rule, key_of(frbs), frbs.site, f"references are resolved recursively, children first: {calls}", why="nested references stay unresolved")
+    frp = repo.func(F_FLATB, "BundleFlattener.resolve_path")
+    ok = any(isinstance(n, ast.For) and ast.unparse(n.iter) == "path.segs" for n in au.walk_no_nested(frp.node)) and bool(pat.find("ns = ns.signals[seg]", frp.node)) and bool(pat.find("ns = ns.scopes[seg]", frp.node)) and ast.unparse(frp.node.body[-1]) == "return ns"
+    R.check(ok, rule, key_of(frp), frp.site, f"paths are resolved segment by segment, each in the scope reached so far: {ok}", why="nested paths resolve in the wrong scope")
+    # (e) replace_bundle_inst: cache before reconnecting (parents and references look the scope up)
+    fri = repo.func(F_FLATB, "BundleFlattener.replace_bundle_inst")
+    st = pat.find("THE_CACHE.bundle_insts[id(bundle_inst)] = flat", fri.node)
+    rc = pat.find("self.replace_bundle_conn(*$_)", fri.node)
+    rr = pat.find("self.resolve_bundlerefs(bundle_inst)", fri.node)
+    ok = bool(st) and bool(rc) and bool(rr) and st[0][0].lineno < rc[0][0].lineno and st[0][0].lineno < rr[0][0].lineno
+    fl = bool(pat.find("flat = self.flatten_bundle_inst(bundle_inst, path=Path([]))", fri.node))
+    R.check(ok and fl, rule, key_of(fri), fri.site, f"a bundle instance is flattened from its own definition ({fl}) and recorded in the cache before connections and references are rewritten ({ok})", why="references into the bundle find no (or a stale) flattened scope")
+    # (f) anonymous bundles: members keep their own names; references are resolved first
+    fab = repo.func(F_FLATB, "BundleFlattener.flatten_anonymous_bundle")
+    lp = [n for n in au.walk_no_nested(fab.node) if isinstance(n, ast.For) and ast.unparse(n.iter) == "anon._namespace.items()"]
+    ok = len(lp) == 1 and bool(pat.find("scope.signals[Path([name])] = attr", lp[0])) and bool(pat.find("attr = self.resolve_bundleref(attr)", lp[0])) and bool(pat.find("scope.add_subscope(name, flat_inst)", lp[0])) and bool(pat.find("scope.add_subscope(name, subscope)", lp[0]))
+    R.check(ok, rule, key_of(fab), fab.site, f"every member of an anonymous bundle enters the scope under its own name; references are resolved first; nested bundles become sub-scopes: {ok}", why="members of an anonymous bundle are connected to the wrong flattened port")
+    fem = repo.func(F_FLATB, "BundleFlattener.elaborate_module")
+    ok = any(isinstance(n, ast.For) and ast.unparse(n.iter) == "instances_and_arrays(module)" for n in au.walk_no_nested(fem.node)) and bool(pat.find("self.replace_anon_bundle_conn(inst=inst, portname=portname, anon=anon_bundle)", fem.node))
+    fia = repo.func(F_FLATB, "instances_and_arrays")
+    ok2 = ast.unparse(fia.node.body[-1]) == "return list(module.instances.values()) + list(module.instarrays.values())"
+    R.check(ok and ok2, rule, key_of(fem, "anon"), fem.site, f"anonymous-bundle connections of every instance and array are replaced: {ok and ok2}", why="anonymous bundles on arrays reach the array flattener")
+    # (g) arrays: bundle broadcast, target
+    fa = repo.func(F_ARRAYS, "ArrayFlattener.elaborate_module")
+    ok = bool(pat.find("target = self.elaborate_instance_base(array)", fa.node)) and bool(pat.find("inst = module.add(Instance(of=target, name=name))", fa.node)) and any(isinstance(n, ast.For) and ast.unparse(n.iter) == "range(array.n)" for n in au.walk_no_nested(fa.node))
+    bb = any(isinstance(n, ast.If) and ast.unparse(n.test) == "isinstance(conn, BundleInstance)" and any(isinstance(x, ast.For) and ast.unparse(x.iter) == "new_insts" and bool(pat.find("inst.connect(portname, conn)", x)) for x in n.body) for n in au.walk_no_nested(fa.node))
+    R.check(ok and bb, rule, key_of(fa, "instances"), fa.site, f"array.n new instances of the array's own target ({ok}); a bundle connection is given to every one of them ({bb})", why="the array flattens into the wrong number of instances or another target")
+    # (h) slice resolver reconnects resolved value to the same port
+    fsr = repo.func(F_SLICES, "SliceResolver.elaborate_module")
+    ok = any(isinstance(n, ast.If) and ast.unparse(n.test) == "isinstance(conn, (Slice, Concat))" and bool(pat.find("resolved = _resolve_sliceable(conn)", n)) and bool(pat.find("inst.connect(portname, resolved)", n)) for n in au.walk_no_nested(fsr.node))
+    R.check(ok, rule, key_of(fsr), fsr.site, f"each slice/concat connection is replaced by its own resolved form on the same port: {ok}", why="a resolved slice is connected to another port")
+    frs = repo.func(F_SLICES, "_resolve_slice")
+    ok = bool(pat.find("ls = _list_slice(slize)", frs.node)) and bool(pat.find("Concat(*ls)", frs.node)) and any(isinstance(n, ast.If) and ast.unparse(n.test) == "len(ls) == 1" and ast.unparse(n.body[-1]) == "return ls[0]" for n in au.walk_no_nested(frs.node))
+    R.check(ok, rule, key_of(frs), frs.site, f"the peeled bits are re-assembled in order (one element as is, several as Concat(*ls)): {ok}", why="resolved bits are re-assembled in another order")
+    R.floor(rule, 18)
